@@ -134,9 +134,9 @@ def logspace(lower_token, upper_token, n_vals_token):
     upper = to_float(upper_token)
     lower = to_float(lower_token)
     if len(n_vals_token) >= 4 and n_vals_token[-4] == 'i':
-        n_vals = int(n_vals_token[:-4]) if len(n_vals_token) > 4 else 1.0
+        n_vals = int(n_vals_token[:-4]) if len(n_vals_token) > 4 else 1
     else:
-        n_vals = int(n_vals_token[:-3]) if len(n_vals_token) > 1 else 1.0
+        n_vals = int(n_vals_token[:-3]) if len(n_vals_token) > 3 else 1
     factor = (upper/lower)**(1.0/(n_vals + 1))
     yield from (float(lower*(factor**i)) for i in range(1, n_vals+1))
     yield float(upper)
